@@ -732,6 +732,17 @@ func (v *Verifier) emit(o *Obligation) {
 // ---------- cut points, ghost state, lemmas ----------
 
 func (fr *Frame) anchor(st *State, kind, target string, idx int) {
+	if fr.anchors && !fr.top {
+		// a callee executed in place by name: its calls are anchors of the cuts of the function under contract
+		top := fr
+		for top.caller != nil {
+			top = top.caller
+		}
+		if top != fr {
+			top.anchor(st, kind, target, idx)
+		}
+		return
+	}
 	if fr.c == nil || len(fr.c.Cuts) == 0 || fr.v.scratch {
 		return
 	}
